@@ -25,7 +25,7 @@ fn pair(rng: &mut Rng) -> Pair {
 }
 
 fn matrix(ctx: &Ctx) {
-    let rounds = ctx.tier.pick(12, 150);
+    let rounds = ctx.tier.pick(12, 600);
     par_for(rounds, crate::util::ncpu(), |round| {
         let mut rng = Rng::fork(ctx.seed, &format!("C05-matrix-{}", round));
         let keys = [pair(&mut rng), pair(&mut rng), pair(&mut rng), pair(&mut rng)];
@@ -107,7 +107,7 @@ fn forged_file(w: &WriteSpec, pt: &[u8]) -> Vec<u8> {
 }
 
 fn forger(ctx: &Ctx) {
-    let rounds = ctx.tier.pick(10, 120);
+    let rounds = ctx.tier.pick(10, 500);
     let low = low_order_all();
     par_for(rounds, crate::util::ncpu(), |round| {
         let mut rng = Rng::fork(ctx.seed, &format!("C05-forge-{}", round));
@@ -258,6 +258,38 @@ fn low_order_recipient(ctx: &Ctx) {
                 ctx.seen("cli: file decrypts only under the key that was named");
                 ctx.distinct(&format!("named|{}|{}", i, order));
             }
+        }
+    }
+    // the keyring given with -k decides whom "bob" is, even if the environment names another keyring
+    {
+        let alice = Ident::new("alice", "apw", &mut rng);
+        let bob = Ident::new("bob", "bpw", &mut rng);
+        let carol_as_bob = Ident::new("bob", "cpw", &mut rng);
+        let mallory_as_alice = Ident::new("alice", "mpw", &mut rng);
+        wd.write("real.ring", crate::cli::keyring_text(&[(&alice, true), (&bob, true)]).as_bytes());
+        wd.write("other.ring", crate::cli::keyring_text(&[(&mallory_as_alice, true), (&carol_as_bob, true)]).as_bytes());
+        wd.write("p.txt", b"to the bob of real.ring");
+        let o = Cmd::new(&wd.path, &["encrypt", "p.txt", "-t", "bob", "-f", "alice", "-k", "real.ring", "--env-pass"]).pass("apw").env("KESTREL_KEYRING", "other.ring").run();
+        ctx.eval();
+        let right = refspec::decode_key_file(&o.stdout, &bob.sk, &bob.pk).map(|d| d.body.complete() && d.sender == alice.pk).unwrap_or(false);
+        let wrong = refspec::decode_key_file(&o.stdout, &carol_as_bob.sk, &carol_as_bob.pk).is_ok();
+        if o.exit == Exit::Code(0) && right && !wrong {
+            ctx.seen("cli: -k keyring decides the addressed key although KESTREL_KEYRING names another");
+            ctx.distinct("named|k-vs-env|encrypt");
+        } else {
+            ctx.violation("C05:cli:file-encrypted-to-another-key-than-the-one-named", json!({"case": "-k real.ring with KESTREL_KEYRING=other.ring", "exit": o.exit.describe(), "stderr": o.stderr_s(), "decrypts_under_named_key": right, "decrypts_under_the_other_keyrings_key": wrong}));
+        }
+        // reporting: a file made with mallory's key must not be announced under alice's name
+        let forged = refspec::encode_key_file(&mallory_as_alice.sk, &mallory_as_alice.pk, &bob.pk, &rng.arr32(), &rng.arr32(), b"hi", &[2]).unwrap();
+        wd.write("m.ktl", &forged);
+        let o = Cmd::new(&wd.path, &["decrypt", "m.ktl", "-t", "bob", "-k", "real.ring", "--env-pass"]).pass("bpw").env("KESTREL_KEYRING", "other.ring").run();
+        ctx.eval();
+        let err = o.stderr_s();
+        if o.exit == Exit::Code(0) && !err.contains("File from: alice") && err.contains(&mallory_as_alice.encoded_pk) {
+            ctx.seen("cli: sender unknown to the -k keyring is reported as unknown, not under a name from KESTREL_KEYRING");
+            ctx.distinct("named|k-vs-env|decrypt");
+        } else {
+            ctx.violation("C05:cli:sender-reported-under-a-name-whose-key-did-not-take-part", json!({"exit": o.exit.describe(), "stderr": err}));
         }
     }
     // sanity of the oracle's low-order list: each is really low order for a clamped scalar
